@@ -181,6 +181,58 @@ pub fn run(args: &Args, rep: &mut Report) {
             rep.sample(|| json!({"country": code, "public_listed": public.get(code).map(|s| s.len()), "school_listed": school.get(code).map(|s| s.len()), "first_public": public.get(code).and_then(|s| s.iter().next()).map(|d| d.to_string())}));
         }
     }
+    // lookup histories: every ordered pair of countries looked up back to back, and long random
+    // sequences of lookups (a memo keyed on too little, or an eviction slip of a small cache, is
+    // only visible after particular predecessors); each result is compared with the source as a set
+    let same = |c: &Country, hol: &opening_hours::ContextHolidays| -> Option<String> {
+        let code = c.iso_code();
+        for (kind, src, cal) in [("public", public.get(code).unwrap_or(&empty), hol.get_public()), ("school", school.get(code).unwrap_or(&empty), hol.get_school())] {
+            if cal.count() as usize != src.len() || !cal.iter().eq(src.iter().copied()) {
+                return Some(format!("{code} {kind}: {} dates, first {:?}; source file: {} dates, first {:?}", cal.count(), cal.iter().next(), src.len(), src.iter().next()));
+            }
+        }
+        None
+    };
+    let n = Country::ALL.len();
+    let mut idx = 0u64;
+    'pairs: for a in Country::ALL.iter() {
+        for b in Country::ALL.iter() {
+            idx += 1;
+            if (idx - 1) % of != args.worker {
+                continue;
+            }
+            rep.evaluations += 1;
+            rep.count("ordered_pairs_of_lookups");
+            match guarded(|| (a.holidays(), b.holidays())) {
+                Err(p) => rep.violation("panic", format!("{}.holidays() then {}.holidays() panicked: {p}", a.iso_code(), b.iso_code()), json!({"country": b.iso_code(), "before": a.iso_code()}), None),
+                Ok((_, hb)) => {
+                    if let Some(diff) = same(b, &hb) {
+                        rep.violation("calendar_depends_on_history", format!("looked up right after {}: {diff}", a.iso_code()), json!({"country": b.iso_code(), "before": [a.iso_code()]}), None);
+                        if rep.full() {
+                            break 'pairs;
+                        }
+                    }
+                }
+            }
+        }
+    }
+    for k in 0..(if args.thorough() { 200 } else { 12 }) {
+        let mut r = crate::rng::Rng::new(args.seed, 0xc10 + args.worker, k);
+        let mut trail: Vec<&str> = Vec::new();
+        for _ in 0..(3 * n) {
+            let c = &Country::ALL[r.below(n as u64) as usize];
+            rep.evaluations += 1;
+            rep.count("lookups_in_random_sequences");
+            if let Ok(h) = guarded(|| c.holidays()) {
+                if let Some(diff) = same(c, &h) {
+                    let before: Vec<&str> = trail.iter().rev().take(40).rev().copied().collect();
+                    rep.violation("calendar_depends_on_history", format!("after the lookups {before:?}: {diff}"), json!({"country": c.iso_code(), "before": before}), None);
+                    break;
+                }
+            }
+            trail.push(c.iso_code());
+        }
+    }
     rep.require("countries_checked", 100);
     rep.require("listed_dates", 100_000);
     rep.require("selector_probes_on_listed", 100_000);
